@@ -6,6 +6,10 @@ FLIP = {'Gt': 'Lt', 'Ge': 'Le'}
 NEG = {'Eq': 'Ne', 'Ne': 'Eq', 'Lt': 'Ge', 'Ge': 'Lt', 'Gt': 'Le', 'Le': 'Gt'}
 
 
+# TryInto / Into are blanket-implemented through TryFrom / From: one name for both spellings
+CALL_ALIAS = {'try_into': 'try_from', 'into': 'from'}
+
+
 def _nm(name):
     if '>::' in name:
         return name.split('>::')[-1]
@@ -50,6 +54,7 @@ def canon(t, depth=0):
         nm = _nm(t[1])
         if nm == 'is_empty' and len(t[2]) == 1:
             return '(0 Eq len(%s))' % canon(t[2][0], d)
+        nm = CALL_ALIAS.get(nm, nm)
         return '%s(%s)' % (nm, ','.join(canon(a, d) for a in t[2]))
     if k == 'closure':
         return 'closure(%s)' % ','.join(canon(a, d) for a in t[2])
@@ -77,6 +82,8 @@ def canon(t, depth=0):
         return 'lv%d' % t[2]
     if k == 'mut':
         return canon(t[1], d)
+    if k == 'adapt' and t[1] == 'split_first':
+        return "%s['first']" % canon(t[2], d)
     if k == 'adapt':
         return '%s(%s)' % (t[1], ','.join(canon(a, d) for a in t.args[1:]))
     if k == 'opaque':
@@ -114,6 +121,15 @@ def cmp_atom(op, a, b):
 def accept_atoms(guard):
     """normal form of the *accept* condition of a guard: list of atoms (conjunction) or [('unknown', text)]"""
     c = guard.cond
+    ty = getattr(guard, 'cond_ty', None)
+    if ty in UNSIGNED and c.tag != 'discr':
+        # `match n { 0 => Err, _ => .. }` on an unsigned integer is the comparison 1 <= n (and the converse n == 0)
+        if guard.reject_vals == ['0'] and guard.pass_vals == ['otherwise']:
+            return [cmp_atom('Le', T('const', 1), c)]
+        if guard.pass_vals == ['0'] and guard.reject_vals == ['otherwise']:
+            return [cmp_atom('Eq', T('const', 0), c)]
+        vals = [v for v in guard.pass_vals]
+        return [('in', canon(c), tuple(sorted(vals, key=lambda x: (len(x), x))))]
     # boolean conditions
     if guard.reject_when_true() or guard.reject_when_false():
         return bool_atom(c, positive=guard.reject_when_false())
@@ -124,6 +140,7 @@ def accept_atoms(guard):
     return [('in', canon(c), tuple(sorted(vals, key=lambda x: (len(x), x))))]
 
 
+UNSIGNED = ('u8', 'u16', 'u32', 'u64', 'u128', 'usize')
 SUCCESS_VARIANT = {'std::ops::ControlFlow<': '0', 'std::option::Option<': '1', 'std::result::Result<': '0'}
 
 
